@@ -210,4 +210,93 @@ theorem assemble_entry [Zero α] (info : MInfo) (c : Comps α) (sort : Bool)
       List.getElem?_map, hp, List.getElem_map, Option.map_some, Option.getD_some]
     rw [e1, e2]
 
+/-! ### multi-participant `.mat`: which variables every kept row comes from -/
+
+theorem strsSame_eq {stim : List Str} {o : Option (MatVal α)}
+    (h : strsSame (fun a b => a == b) stim o = true) : o = some (.strs stim) := by
+  cases o with
+  | none => simp [strsSame] at h
+  | some mv =>
+    cases mv with
+    | nums r => simp [strsSame] at h
+    | strs l =>
+      have : stim = l := by simpa [strsSame] using h
+      rw [this]
+
+/-- with one row per `rdmutv_<p>` variable (a 1 × m matrix), row `k` of the stack is the row of
+    the variable named after participant `k` -/
+theorem stackUtvs_rows (vars : List (Str × MatVal α)) : ∀ (ps : List Str) (U : List (List α)),
+    stackUtvs vars ps = .ok U →
+    (∀ p ∈ ps, ∀ rows, lookupVar vars (utvVarOf p) = some (.nums rows) → rows.length = 1) →
+    U.length = ps.length ∧ ∀ (k : Nat) (p : Str), ps[k]? = some p →
+      ∃ utv, lookupVar vars (utvVarOf p) = some (.nums [utv]) ∧ U[k]? = some utv
+  | [], U, h, _ => by
+    have : U = [] := by simpa [stackUtvs] using h.symm
+    subst this
+    simp
+  | p :: ps, U, h, hone => by
+    unfold stackUtvs at h
+    cases hl : lookupVar vars (utvVarOf p) with
+    | none => simp [hl] at h
+    | some mv =>
+      cases mv with
+      | strs l => simp [hl] at h
+      | nums rows =>
+        cases hr : stackUtvs vars ps with
+        | error e => simp [hl, hr] at h
+        | ok r =>
+          have hU : rows ++ r = U := by simpa [hl, hr] using h
+          subst hU
+          have h1 := hone p List.mem_cons_self rows hl
+          obtain ⟨utv, rfl⟩ : ∃ utv, rows = [utv] := by
+            match rows, h1 with
+            | [x], _ => exact ⟨x, rfl⟩
+          obtain ⟨ihl, ihk⟩ := stackUtvs_rows vars ps r hr
+            (fun q hq => hone q (List.mem_cons_of_mem _ hq))
+          refine ⟨by simp [ihl], ?_⟩
+          intro k q hk
+          cases k with
+          | zero =>
+            have : p = q := by simpa using hk
+            subst this
+            exact ⟨utv, hl, by simp⟩
+          | succ k =>
+            have hk' : ps[k]? = some q := by simpa using hk
+            obtain ⟨u', a, b⟩ := ihk k q hk'
+            exact ⟨u', a, by simpa using b⟩
+
+/-- the components of a multi-participant `.mat`: the kept participants are exactly the
+    `stimuli*` variables (in file order) whose list equals the returned one -/
+theorem compsMat_multi (info : MInfo) (vars : List (Str × MatVal α)) (c : Comps α)
+    (hm : info.participantScopeSingle = false) (h : compsMat info vars = .ok c) :
+    c.pnames = (((vars.map (·.1)).filter (fun v => v.take 7 == sStimuli)).filter
+        (fun v => strsSame (fun a b => a == b) c.stimuli (lookupVar vars v))).map pnameOfVar ∧
+    stackUtvs vars c.pnames = .ok c.utvs ∧ c.tidx = none ∧
+    ∃ tn, info.taskName = some tn ∧ c.tnames = some (c.pnames.map (fun _ => tn)) := by
+  unfold compsMat compsMatBy at h
+  simp only [hm, Bool.false_eq_true, if_false] at h
+  cases hs : (vars.map (·.1)).filter (fun v => v.take 7 == sStimuli) with
+  | nil => simp [hs] at h
+  | cons v0 rest =>
+    simp only [hs] at h
+    cases hl : lookupVar vars v0 with
+    | none => simp [hl] at h
+    | some mv =>
+      cases mv with
+      | nums r => simp [hl] at h
+      | strs stim =>
+        cases ht : info.taskName with
+        | none => simp [hl, ht] at h
+        | some tn =>
+          simp only [hl, ht] at h
+          cases hst : stackUtvs vars (((v0 :: rest).filter
+              (fun v => strsSame (fun a b => a == b) stim (lookupVar vars v))).map pnameOfVar) with
+          | error e => simp [hst] at h
+          | ok U =>
+            simp only [hst] at h
+            have hc : c = { utvs := U, stimuli := stim, pnames := _, tnames := _, tidx := none } :=
+              (Except.ok.inj h).symm
+            subst hc
+            exact ⟨rfl, hst, rfl, tn, rfl, rfl⟩
+
 end Rsa.Importers
